@@ -141,7 +141,7 @@ func (f *Frame) appendBuiltin(cc *ssa.CallCommon, args []Val, pc string, st *Sta
 	et := sl.Elem()
 	es := vc.sortOf(et)
 	cn := elemComp(et)
-	E := vc.comp(st, cn, vc.elemCompSort(et))
+	E := vc.comp(st, cn, vc.elemCompSort(et), et)
 	f.noteCompSt(st, cn)
 	var tl, tarr, toff string // appended part
 	if bt, isStr := types.Unalias(t.Typ).Underlying().(*types.Basic); isStr && bt.Info()&types.IsString != 0 {
@@ -189,7 +189,7 @@ func (f *Frame) copyBuiltin(args []Val, pc string, st *State, pos token.Pos) Val
 	et := sl.Elem()
 	es := vc.sortOf(et)
 	cn := elemComp(et)
-	E := vc.comp(st, cn, vc.elemCompSort(et))
+	E := vc.comp(st, cn, vc.elemCompSort(et), et)
 	f.noteCompSt(st, cn)
 	var sLen string
 	var elemAt func(j string) string
@@ -491,6 +491,11 @@ func (f *Frame) callContract(callee *ssa.Function, con *Contract, args []Val, pc
 		vc.assert(fmt.Sprintf("(>= %s %s)", na, st.alloc))
 		st.alloc = na
 	}
+	for _, k := range comps {
+		if _, ok := vc.compSorts[k]; ok {
+			vc.assertCompWF(st.heap[k], k, st.alloc)
+		}
+	}
 	res := f.freshResults(callee, st)
 	// bind results
 	rn := callee.Signature.Results()
@@ -605,15 +610,29 @@ func (f *Frame) modTargets(con *Contract, env *Env) map[string][]string {
 }
 
 func (f *Frame) bindGhosts(con *Contract, env *Env, pre bool) {
-	for _, g := range con.Ghosts {
-		if _, ok := env.vars[g.Name]; ok {
-			continue
+	for _, d := range con.Decls {
+		var kind string
+		var i int
+		fmt.Sscanf(strings.Replace(d, ":", " ", 1), "%s %d", &kind, &i)
+		switch kind {
+		case "let":
+			l := con.Lets[i]
+			lv := env.eval(l.E)
+			if len(lv.T) > 40 {
+				lv.T = f.vc.define("let "+l.Name, lv.sort(f.vc), lv.T)
+			}
+			env.vars[l.Name] = lv
+		case "ghost":
+			g := con.Ghosts[i]
+			if _, ok := env.vars[g.Name]; ok {
+				continue
+			}
+			srt := env.sortOfTypeString(g.Type)
+			env.vars[g.Name] = Val{T: f.vc.freshConst("ghost "+g.Name, srt), Sort: srt, Typ: env.goTypeOf(g.Type)}
+			if g.Def != nil {
+				f.vc.assert(env.ghostDef(g))
+			}
 		}
-		srt := env.sortOfTypeString(g.Type)
-		env.vars[g.Name] = Val{T: f.vc.freshConst("ghost "+g.Name, srt), Sort: srt, Typ: env.goTypeOf(g.Type)}
-	}
-	for _, l := range con.Lets {
-		env.vars[l.Name] = env.eval(l.E)
 	}
 }
 
@@ -639,6 +658,9 @@ func (f *Frame) havocCall(callee *ssa.Function, args []Val, pc string, st *State
 	na := vc.freshConst("alloc", "Int")
 	vc.assert(fmt.Sprintf("(>= %s %s)", na, st.alloc))
 	st.alloc = na
+	for _, k := range comps {
+		vc.assertCompWF(st.heap[k], k, st.alloc)
+	}
 	mp := vc.freshConst("maypanic "+callee.Name(), "Bool")
 	pv := vc.freshConst("panicval", "Iface")
 	f.exits = append(f.exits, Exit{Panic: true, Cond: and(pc, mp), St: st.clone(), PanicVal: Val{T: pv}, Pos: posOf(ins, f), Desc: "unmodelled callee " + name + " may panic"})
@@ -779,4 +801,14 @@ func (f *Frame) callDynamic(fv Val, cc *ssa.CallCommon, args []Val, pc string, s
 	}
 	f.safe(pc, "dispatch", posOf(ins, f), or(idConds...), "function value is one of the functions ever stored in a value of this type (closed world)")
 	return f.mergeCallResults(sig.Results(), conds, states, results, st)
+}
+
+// ghostDef evaluates the defining predicate of a ghost (a total definition: a prelude predicate marked
+// ;@definitional that fixes every point of the ghost value, so assuming it cannot be vacuous).
+func (e *Env) ghostDef(g GhostDecl) string {
+	call, ok := g.Def.(ECall)
+	if !ok || !e.vc.prog.prelude.defs[call.Fn] {
+		unsup("ghost %s: defining predicate must be a ;@definitional prelude predicate: %s", g.Name, g.Src)
+	}
+	return e.evalBool(g.Def)
 }
